@@ -160,7 +160,7 @@ def bystanders(rng, n, knobs=None):
     return out
 
 
-ROOTS = ("capture.msg[3]", "x", "a.b.c", "m[0]", "trace[12].message",
+ROOTS = ("capture.msg[3]", "x", "a.b.c", "m[0]", "trace[12].message", "log.parameters", "handles", "job.randomBytes.buffer", "rec.authorizationArea",
          "site.rack[4].host.vm[2].tpm.session[7].capture.file.record[123].frame.payload.message.body.tpm2.value")
 
 
@@ -544,7 +544,8 @@ def scenario_stream(rng):
     k.p_fail, k.p_absent, k.max_nodes = 0.0, 0.0, max(k.max_nodes, 60)
     g = gen.Gen(rng, k)
     cc = L.cc_by_name
-    kind = rng.choice(("nv", "nv", "object", "sequence", "mixed"))
+    kind = rng.choice(("nv", "nv", "object", "sequence", "mixed", "policy"))
+    loc = rng.choice((1, 2, 4, 8, 16, 3, 32, 64, 0x41))                  # the locality a policy names is the locality objects get created at
     nt = n = idx = None
     if kind == "nv":
         nt = rng.choice((0, 1, 2, 4, 8, 9))                       # ordinary, counter, bits, extend, PIN fail, PIN pass
@@ -559,6 +560,11 @@ def scenario_stream(rng):
         seq = [rng.choice(("CreatePrimary", "Load", "LoadExternal", "CreateLoaded"))] + rng.sample(["ReadPublic", "Sign", "Certify", "ObjectChangeAuth", "Unseal", "ContextSave", "EvictControl", "RSA_Decrypt", "HMAC"], rng.randint(1, 3)) + ["FlushContext"]
     elif kind == "sequence":
         seq = [rng.choice(("HashSequenceStart", "HMAC_Start"))] + ["SequenceUpdate"] * rng.randint(1, 3) + [rng.choice(("SequenceComplete", "EventSequenceComplete"))]
+    elif kind == "policy":
+        seq = ["StartAuthSession"] + rng.sample(["PolicyLocality", "PolicyPCR", "PolicyCommandCode", "PolicyAuthValue", "PolicyLocality"], rng.randint(2, 3)) + \
+              [rng.choice(("CreatePrimary", "Create", "CreateLoaded"))] + (["CertifyCreation"] if rng.random() < 0.3 else []) + ["FlushContext"]
+        if "PolicyLocality" not in seq:
+            seq.insert(1, "PolicyLocality")
     else:
         seq = ["StartAuthSession", "CreatePrimary", "NV_DefineSpace", "NV_Read", "ReadPublic", "PCR_Extend", "PCR_Read", "FlushContext"]
         idx, nt, n = 0x01000000 | rng.randrange(1 << 24), rng.choice((0, 8, 9)), 8
@@ -596,6 +602,8 @@ def scenario_stream(rng):
             fixes = [(".parameters.size", n), (".parameters.offset", 0)]
         elif name == "NV_Write":
             fixes = [(".parameters.offset", 0)]
+        elif name == "PolicyLocality":
+            fixes = [(".parameters.locality", loc)]
         cb = patch(cmd, fixes)
         if name in ("NV_Read", "NV_Write") and n is not None:
             g.buf_size = lambda n=n: n
@@ -611,6 +619,8 @@ def scenario_stream(rng):
                 known.append(it[3])
         if name == "NV_ReadPublic" and idx is not None:
             rb = patch(rsp, [(".nvPublic.nvIndex", idx), (".nvPublic.dataSize", n)])
+        elif name in ("CreatePrimary", "Create", "CreateLoaded") and kind in ("policy", "mixed"):
+            rb = patch(rsp, [(".creationData.locality", loc)])
         out += [cb, rb]
         metas += [dict(kind="command", cc=None, enc=None), dict(kind="response", cc=c, enc=None)]
     data = b"".join(out)
